@@ -117,6 +117,13 @@ class DiGraphEx(nx.DiGraph):
         if target_nodes is not None:
             graph = graph.minimal_induced_subgraph(target_nodes).copy()
 
+        # networkx's `.subgraph(...).copy()` instantiates a new DiGraphEx whose per-node tables are empty:
+        # carry the tables of the original graph over to the pruned one
+        graph.tag.update(self.tag)
+        graph.debug.update(self.debug)
+        graph.setup.update(self.setup)
+        graph.compound_priority.update(self.compound_priority)
+
         return graph
 
     @property
